@@ -426,6 +426,22 @@ def run(ctx):
                  'a row taken from the object store (%s) is attached to field %s of another object: the attributes reported for one object then depend on operations on the other' % (sorted(names), field))
     if not shared:
         ctx.ok('C05.R6', ENGINE, 'all %d collection stores attach freshly built rows' % n_add)
+    # ---------------- R7 operations that only read leave the loaded instance untouched
+    ctx.rule('C05.R7', 'only Activate, Revoke, Destroy and the attribute operations (Set/Modify/DeleteAttribute) modify an object loaded from the store; every other handler (Get, GetAttributes, GetAttributeList, Locate, the cryptographic-use operations, DeriveKey on its base objects, ...) leaves the loaded instance untouched - a dirty instance is written out by the next commit in the same batch')
+    WRITERS = {'_process_activate', '_process_revoke', '_process_destroy', '_process_set_attribute', '_process_modify_attribute', '_process_delete_attribute'}
+    ro = {}
+    n_mut = 0
+    for e in ai.events:
+        if e['kind'] != 'mutation':
+            continue
+        n_mut += 1
+        if e['origin'] == 'loaded' and e['ctx'][0] not in WRITERS:
+            ro.setdefault((e['ctx'][0], e['fn'], e['line'], e['field']), e)
+    for (root, fn, line, field), e in sorted(ro.items()):
+        ctx.fail('C05.R7', 'KmipEngine.%s|modifies loaded %s|via %s' % (fn, field, root), '%s:%s KmipEngine.%s' % (ENGINE, line, fn),
+                 'handler %s modifies field %s of an object loaded from the store although the operation only reads: the change is flushed by the next commit of the batch (or of a later item), and later reads return the modified value' % (root, field))
+    if not ro:
+        ctx.ok('C05.R7', ENGINE, 'no mutation of a loaded object outside the six modifying handlers (%d mutation events)' % n_mut)
     ctx.not_decided += ['byte fidelity of values through SQLite/SQLAlchemy/TTLV for arbitrary values; restarts on the same database file',
                         'GetAttributes reporting exactly the supplied attributes for arbitrary values']
     ctx.assumptions += ['ROLE alias table (key_value/certificate_value/opaque_data_value <-> value, etc.) transcribes the field roles']
